@@ -1993,6 +1993,12 @@ def install(prog):
                 for x in tbl[c]['tolower' if m.group(1) == 'to_lowercase' else 'toupper']: out.append((x, utf8_width(x)))
         return StrObj(out)
 
+    @M(r'(?:std::ops::|core::ops::)?RangeInclusive::<(usize|u64|u32|u16|u8|i64|i32)>::contains::<.*>')
+    def _(it, m, a):
+        r = deref(a[0]); x = deref(a[1]); ty = m.group(1)
+        if not it.branch(it.binop('Le', r.f[0], x, ty)): return False
+        return it.branch(it.binop('Le', x, r.f[1], ty))
+
     @M(r'(?:std::ops::|core::ops::)?RangeInclusive::<.*>::new')
     def _(it, m, a): return Agg('RangeInclusive', None, [a[0], a[1], False])
 
